@@ -881,7 +881,14 @@ func (n *FuncType) String() string {
 		if i > 0 {
 			s += ", "
 		}
-		s += param.String()
+		if n.IsVariadic && i == len(n.Parameters)-1 {
+			if param.Ident != nil {
+				s += param.Ident.Name + " "
+			}
+			s += "..." + param.Type.String()
+		} else {
+			s += param.String()
+		}
 	}
 	s += ")"
 	if len(n.Result) > 0 {
